@@ -1,1 +1,5 @@
 import TaskModel.Resolve.Glob
+import TaskModel.Resolve.GlobLemmas
+import TaskModel.Resolve.Table
+import TaskModel.Sched.Model
+import TaskModel.Sched.Monitors
